@@ -335,8 +335,8 @@ def rewrite (reg : Registry) (f : Frame) : Option Record :=
 
 /-- The 8th element of a record, `template_source`, as the loop of `_init` assigns it.  The per-file cache
     `mods` keeps `line_map`, `template_lines`, `template_filename`; whether it also keeps the template source
-    is the parameter `keeps` (read off mako/exceptions.py by the harness: the arity of the tuple stored in
-    `mods[filename]`).  Without it the local variable `template_source` is set only on a MISS of the cache, and
+    is the parameter `keeps`; for /repo it is the regenerated constant `Generated.TbCfg.modsCacheKeepsSource`
+    (tools/regen_tbcfg.py reads the tuple stored in / unpacked from `mods[filename]` in mako/exceptions.py).  Without it the local variable `template_source` is set only on a MISS of the cache, and
     on a hit the record gets whatever the variable holds – the source of the template module that was seen
     *last for the first time*.  State: the cache (file name ↦ source) and the current value of the variable. -/
 def srcStep (keeps : Bool) (reg : Registry) (st : List (Str × Str) × Option Str) (f : Frame) :
